@@ -35,7 +35,8 @@ pub fn run(k: &str, a: &Value) -> Option<Value> {
             }
             let mut idx = sel.collect();
             idx.sort();
-            let sub = m.create_from_indices(&idx);
+            let create: Vec<usize> = match a.get("create") { Some(Value::Array(c)) => c.iter().map(|i| i.as_u64().unwrap() as usize).collect(), _ => idx.clone() };
+            let sub = m.create_from_indices(&create);
             json!({"indices": idx,
                    "sub_vertices": sub.vertices().iter().map(|p| json!([fo(p.x), fo(p.y), fo(p.z)])).collect::<Vec<_>>(),
                    "sub_faces": sub.faces().iter().map(|t| json!([t[0], t[1], t[2]])).collect::<Vec<_>>()})
